@@ -356,7 +356,7 @@ func genMavenManifest(rt *rapid.T, u []Pkg, mode string) Manifest {
 		}
 	}
 	if mode == "update" && len(directs) > 0 && chance(rt, "hasprofile", 1, 2) {
-		pf := Profile{ID: "extra"}
+		pf := Profile{ID: "extra", Active: chance(rt, "profactive", 1, 2)}
 		np := draw(rt, "nprofdeps", 1, 1, 2)
 		pused := map[int]bool{}
 		for k := 0; k < np; k++ {
@@ -371,6 +371,16 @@ func genMavenManifest(rt *rapid.T, u []Pkg, mode string) Manifest {
 			pused[i] = true
 			g, a := split(u[i].Name)
 			v := u[i].Vers[rapid.IntRange(0, len(u[i].Vers)-1).Draw(rt, l+".ver")].V
+			// a profile dependency may take its version from a project-wide property, also one
+			// that a top-level dependency uses
+			for _, pr := range pom.Props {
+				if chance(rt, l+".prop", 1, 2) {
+					if p := w0pkg(u, u[i].Name); p != nil && hasVersion(p, pr.V) {
+						v = "${" + pr.K + "}"
+						break
+					}
+				}
+			}
 			pf.Deps = append(pf.Deps, MDep{G: g, A: a, V: v})
 		}
 		pom.Profiles = append(pom.Profiles, pf)
@@ -607,11 +617,24 @@ func genOpts(rt *rapid.T, w *World, maxUpgrades []int, plain, conc bool) Opts {
 	if len(w.Vulns) > 0 && chance(rt, "hasignore", 1, 6) {
 		o.Ignore = []string{w.Vulns[rapid.IntRange(0, len(w.Vulns)-1).Draw(rt, "ignore")].ID}
 	}
-	if len(w.Vulns) > 1 && chance(rt, "hasexplicit", 1, 8) {
+	if len(w.Vulns) > 1 && chance(rt, "hasexplicit", 1, 6) {
 		for i, v := range w.Vulns {
 			if chance(rt, fmt.Sprintf("explicit%d", i), 1, 2) {
 				o.Explicit = append(o.Explicit, v.ID)
 			}
+		}
+		// now and then the list names a record by an OSV alias instead of its id
+		if chance(rt, "explicit.alias", 1, 2) {
+			i := rapid.IntRange(0, len(w.Vulns)-1).Draw(rt, "explicit.aliasof")
+			al := "CVE-" + w.Vulns[i].ID
+			w.Vulns[i].Aliases = append(w.Vulns[i].Aliases, al)
+			var keep []string
+			for _, e := range o.Explicit {
+				if e != w.Vulns[i].ID {
+					keep = append(keep, e)
+				}
+			}
+			o.Explicit = append(keep, al)
 		}
 	}
 	o.DevDeps = !chance(rt, "nodev", 1, 4)
@@ -633,9 +656,22 @@ func genWorld(rt *rapid.T, kinds []string, maxUpgrades []int, plain, conc bool) 
 	case "update":
 		w.Sys, w.Mode = "maven", "update"
 	}
-	motif := draw(rt, "motif", 0, 0, 0, 0, 0, 0, 1, 2, 3, 4)
+	motif := draw(rt, "motif", 0, 0, 0, 0, 0, 0, 0, 0, 1, 2, 3, 4, 5, 6, 7)
+	switch {
+	case w.Sys == "npm" && motif == 4:
+		motif = 5
+	case w.Sys == "npm" && motif == 6:
+		motif = 7
+	case w.Sys == "maven" && motif == 5:
+		motif = 4
+	case w.Sys == "maven" && motif == 7:
+		motif = 6
+	}
 	if conc && motif == 0 && chance(rt, "motif.conc", 1, 3) {
-		motif = draw(rt, "motif.which", 1, 1, 3)
+		motif = draw(rt, "motif.which", 1, 1, 3, 5)
+		if w.Sys == "maven" && motif == 5 {
+			motif = 3
+		}
 	}
 	if motif > 0 && w.Mode == "fix" {
 		genMotif(rt, w, motif)
@@ -669,4 +705,22 @@ func genFaults(rt *rapid.T) []Fault {
 		fs = append(fs, Fault{Phase: draw(rt, fmt.Sprintf("fault%d.phase", i), 1, 1, 1, 1, 0), K: rapid.IntRange(0, 80).Draw(rt, fmt.Sprintf("fault%d.k", i))})
 	}
 	return fs
+}
+
+func w0pkg(u []Pkg, name string) *Pkg {
+	for i := range u {
+		if u[i].Name == name {
+			return &u[i]
+		}
+	}
+	return nil
+}
+
+func hasVersion(p *Pkg, v string) bool {
+	for _, x := range p.Vers {
+		if x.V == v {
+			return true
+		}
+	}
+	return false
 }
